@@ -76,6 +76,10 @@ pub const CONST_FORMS: &[ConstForm] = &[ConstForm::AddConst, ConstForm::AddAssig
 pub enum GOp {
     AllocElem { dst: u8, src: Recipe, mode: Mode, via: Via },
     AllocFq { dst: u8, val: Num, mode: Mode },
+    /// allocate a *new* variable holding the native value of register `a`: the same element,
+    /// possibly as the other coset representative (witness / input allocation returns the decoded
+    /// point, a constant keeps the point it was given)
+    Realloc { dst: u8, a: u8, mode: Mode, via: Via },
     Compress { dst: u8, e: u8 },
     Decompress { dst: u8, f: u8 },
     Elligator { dst: u8, f: u8 },
@@ -105,6 +109,7 @@ impl GOp {
         match self {
             GOp::AllocElem { mode, via, .. } => format!("AllocElem:{mode:?}:{via:?}"),
             GOp::AllocFq { mode, .. } => format!("AllocFq:{mode:?}"),
+            GOp::Realloc { mode, .. } => format!("Realloc:{mode:?}"),
             GOp::Bin { form, .. } => format!("Bin:{form:?}"),
             GOp::BinConst { form, .. } => format!("BinConst:{form:?}"),
             GOp::ScalarMul { bits_const, .. } => format!("ScalarMul:{}", if *bits_const { "const-bits" } else { "witness-bits" }),
@@ -116,7 +121,7 @@ impl GOp {
     }
     /// decode / encode / Elligator gadget on a (non-constant) variable
     pub fn is_codec(&self) -> bool {
-        matches!(self, GOp::Compress { .. } | GOp::Decompress { .. } | GOp::Elligator { .. } | GOp::AllocElem { mode: Mode::Witness | Mode::Input, .. })
+        matches!(self, GOp::Compress { .. } | GOp::Decompress { .. } | GOp::Elligator { .. } | GOp::AllocElem { mode: Mode::Witness | Mode::Input, .. } | GOp::Realloc { mode: Mode::Witness | Mode::Input, .. })
     }
 }
 
@@ -281,6 +286,27 @@ impl Machine {
         match op {
             GOp::AllocElem { dst, src, mode, via } => {
                 let native = native_of(src);
+                let var = match via {
+                    Via::Element => <ElementVar as AllocVar<AE, Fq>>::new_variable(cs.clone(), || Ok(native), mode.ark()),
+                    Via::Affine => <ElementVar as AllocVar<AA, Fq>>::new_variable(cs.clone(), || Ok(native.into_affine()), mode.ark()),
+                    Via::Encoding => {
+                        if *mode == Mode::Constant {
+                            return Ok(StepOut::Skipped);
+                        }
+                        <ElementVar as AllocVar<Fq, Fq>>::new_variable(cs.clone(), || Ok(native.vartime_compress_to_field()), mode.ark())
+                    }
+                }
+                .map_err(|e| synth(e, &name))?;
+                self.check_elem(&name, &var, &native, ctx)?;
+                self.ev[*dst as usize % NE] = Some(EReg { var, native, is_const: *mode == Mode::Constant });
+            }
+            GOp::Realloc { dst, a, mode, via } => {
+                // a constant copied from a (witness-dependent) register value would make the circuit's
+                // *definition* depend on the values: not a shape-preserving construction
+                if self.run == Run::Shape && *mode == Mode::Constant {
+                    return Ok(StepOut::Skipped);
+                }
+                let (_, native, _) = ereg!(*a);
                 let var = match via {
                     Via::Element => <ElementVar as AllocVar<AE, Fq>>::new_variable(cs.clone(), || Ok(native), mode.ark()),
                     Via::Affine => <ElementVar as AllocVar<AA, Fq>>::new_variable(cs.clone(), || Ok(native.into_affine()), mode.ark()),
@@ -625,6 +651,7 @@ pub fn gop() -> BoxedStrategy<GOp> {
     prop_oneof![
         4 => (e(), recipe::recipe_small(), mode_any(), via()).prop_map(|(dst, src, mode, via)| GOp::AllocElem { dst, src, mode, via }),
         3 => (f(), fq_input(), mode_any()).prop_map(|(dst, val, mode)| GOp::AllocFq { dst, val, mode }),
+        3 => (e(), e(), mode_any(), via()).prop_map(|(dst, a, mode, via)| GOp::Realloc { dst, a, mode, via }),
         3 => (f(), e()).prop_map(|(dst, e)| GOp::Compress { dst, e }),
         3 => (e(), f()).prop_map(|(dst, f)| GOp::Decompress { dst, f }),
         2 => (e(), f()).prop_map(|(dst, f)| GOp::Elligator { dst, f }),
